@@ -49,6 +49,13 @@ def c19Handlers : List (String × Handler) := [
         " ".intercalate rs ++ " | " ++ digest r.1.data ++ " " ++ digest r.1.file
       | none => "bad-op"
     | _ => "bad-op"),
+  -- c19postf <persistOk 0|1> <nclients> <template> <name> <date> <body> <memory> <file>  → handler outcome with the persist result as input
+  ("c19postf", fun (a : List String) => match a with
+    | [ok, n, t, nm, d, b, mem, file] =>
+      let s : Store := ⟨hexb mem, 0, hexb file⟩
+      let r := handlePostF (ok == "1") (hexb t) (List.range (num n)) (hexb nm) (hexb d) (hexb b) s
+      s!"acked={if r.acked then 1 else 0} notes={r.notes.length} file={digest r.store.file}"
+    | _ => "bad-op"),
   -- c19board <init> <post>…  → hex of the board after the posts (in that order)
   ("c19board", fun (a : List String) => match a with
     | init :: ps => toHex (boardAfter (hexb init) (ps.map fun h => Op.post (hexb h)))
